@@ -239,6 +239,12 @@ def step (st : DState) (line : String) : DState × String :=
     ({ st with eventer := l }, evStr e)
   | ["opstring", o] => (st, chars (opString (bv32 o)))
   | ["has", a, b] => (st, if opHas (bv32 a) (bv32 b) then "1" else "0")
+  | ["reqseq", a, b, c] =>
+    -- the kernel keeps the union of what the calls requested (register ORs in IN_MASK_ADD for a listed path)
+    let m1 := inotifyRequest false (bv32 a) &&& 0xfff#32
+    let m2 := m1 ||| (inotifyRequest false (bv32 b) &&& 0xfff#32)
+    let m3 := m2 ||| (inotifyRequest false (bv32 c) &&& 0xfff#32)
+    (st, s!"{showBv m1},{showBv m2},{showBv m3}")
   | ["request", nf, ops] => (st, showBv (inotifyRequest (nf == "1") (bv32 ops)))
   | ["inotifyop", m] => (st, showBv (inotifyNewEventOp (bv32 m)))
   | ["kqop", m] => (st, showBv (kqueueNewEventOp (bv32 m)))
